@@ -44,6 +44,13 @@ def _zoo() -> dict[str, Any]:
     Z["switch_4way_in_fori"] = lambda x, i: lax.fori_loop(0, 2, lambda k, v: lax.switch(i, [lambda u: u + 1, lambda u: u * 2, lambda u: u - 3, lambda u: -u], v), x)
     Z["scan_reverse"] = lambda x: lax.scan(lambda c, r: (c + r, c * r), jnp.zeros((3,), x.dtype), jnp.stack([x, x * 2, x * 3]), reverse=True)
     Z["scan_reverse_in_cond"] = lambda x: lax.cond(jnp.sum(x) > 0, lambda v: lax.scan(lambda c, r: (c + r, c * r), jnp.zeros((3,), v.dtype), jnp.stack([v, v * 2]), reverse=True)[1][0], lambda v: v, x)
+    Z["scan_reverse_no_xs_carry_only"] = lambda x: lax.scan(lambda c, _: (c * 0.5 + 1.0, None), x, None, length=4, reverse=True)[0]
+    Z["scan_reverse_no_xs_stacked_ys"] = lambda x: lax.scan(lambda c, _: (c * 0.5 + 1.0, c * 2.0), x, None, length=4, reverse=True)[1]
+    Z["scan_reverse_no_xs_stacked_ys_in_fori"] = lambda x: lax.fori_loop(0, 2, lambda i, v: v + lax.scan(lambda c, _: (c * 0.5 + 1.0, c), v, None, length=3, reverse=True)[1].sum(0) * jnp.array([1.0, 2.0, 3.0]), x)
+    Z["scan_reverse_int_counter"] = lambda x: lax.scan(lambda c, _: (c + 1, c.astype(jnp.float32) * x), jnp.int32(0), None, length=3, reverse=True)[1]
+    Z["cumsum_reverse_axis1"] = lambda x: lax.cumsum(jnp.stack([x, x * 2.0]), axis=1, reverse=True)
+    Z["cummax_reverse"] = lambda x: lax.cummax(x * jnp.array([1.0, -1.0, 0.5]), axis=0, reverse=True)
+    Z["associative_scan_reverse"] = lambda x: lax.associative_scan(jnp.add, x, reverse=True)
     Z["fori_traced_bounds"] = lambda x, n: lax.fori_loop(0, n, lambda i, v: v * 1.5 + 1, x)
     Z["fori_traced_lower"] = lambda x, n: lax.fori_loop(n, 4, lambda i, v: v * 1.5 + 1, x)
     Z["while_with_unregistered_in_cond_fn"] = lambda x: lax.while_loop(lambda s: jnp.sum(p.bind(s)) < 50.0, lambda s: s * 2 + 1, jnp.abs(x) + 1)
